@@ -23,17 +23,22 @@ GN = ("google", "numpydoc")
 # hand-written renderers (independent of cdd's emitter)
 # ---------------------------------------------------------------------------------------------------------------
 NAMES = ["a", "b", "foo", "bar_baz", "x1", "dataset_name", "K", "as_numpy", "lr", "epochs", "alpha", "n_items", "path_to", "verbose_flag", "_private", "kwargs", "my_kwargs"]
-# mostly free of the words `parse_adhoc_doc_for_typ` reacts to; a few that trigger it are kept on purpose (the model abstains there)
+# free of the words `parse_adhoc_doc_for_typ` reacts to …
 DOCS = ["the alpha thing", "dataset name", "learning rate used", "a thing", "some text here", "flag for verbosity", "batch count here", "Random seed",
-        "the size (in items)", "weights: one per layer", "x", "Optional scaling applied first", "(Optional) extra offset", "ratio a/b kept as is",
-        "whether to shuffle", "number of passes", "path to the file", "a string or None", "list of names", "either `a` or `b`", "True if verbose",
+        "the size (in items)", "weights: one per layer", "x", "Optional scaling applied first", "(Optional) extra offset",
         "the value, see section 2.3 for details", "first axis. Second sentence here", "tolerance; lower is stricter"]
+# … and descriptions that make it propose a type (evaluated by `eval`; the model follows only whitelisted proposals)
+DOCS_TRIGGER = ["whether to shuffle", "number of passes", "path to the file", "a string or None", "list of names", "either `a` or `b`", "True if verbose", "ratio a/b kept as is",
+                "a dictionary of options", "the filename", "integer count", "called at every step"]
+# types that are Python expressions (after the parser's own rewriting of `, optional` / ` or `), `None` = no type written, "" = empty type
 TYPES = [None, None, "", "int", "float", "str", "bool", "Optional[int]", "Optional[str]", "List[str]", "Dict[str, int]", "Union[int, str]", "np.ndarray", "tf.data.Dataset",
-         "Callable[[int], int]", "Tuple[int, ...]", "Literal['a', 'b']", "int, optional", "str, optional", "int or None", "str or int or float", "list of int", "complex",
+         "Callable[[int], int]", "Tuple[int, ...]", "Literal['a', 'b']", "int, optional", "str, optional", "int or None", "str or int or float", "complex",
          "dict", "tuple", "object", "Any", 'Literal["x y", "z"]']
-DEFAULTS = ["5", "-3", "0", "42", "3.14", "-2.5", "0.001", "True", "False", '"foo"', "'a b'", "mnist", "None", "```None```", "```(None)```", "```np.zeros(3)```", "1e5", "10.", "(1, 2)",
-            "[1, 2]", "{'a': 1}", "foo.bar", "~/data", "1_000", "+7", "inf", "", "a*b", "lambda x: x", "0j"]
-ANNOUNCE = ["Defaults to {}", "defaults to {}", "Default value is {}", "Default: {}", "Defaults to {}.", "Defaults to {}. More text here", "(defaults to {})", "default is {}",
+# what people write instead (only in the malformed stream: the parser passes the text through)
+TYPES_PROSE = ["list of int", "array-like", "int > 0", "{'a', 'b'}", "str (path)", "callable(x) -> y", "Union[int,\n      str]", "int:", "a b"]
+DEFAULTS = ["5", "-3", "0", "42", "3.14", "-2.5", "0.001", "True", "False", '"foo"', "'a b'", "mnist", "None", "7", "1", "2.0", "'x'", "foo.bar", "~/data"]
+DEFAULTS_EXOTIC = ["```None```", "```(None)```", "```np.zeros(3)```", "1e5", "10.", "(1, 2)", "[1, 2]", "{'a': 1}", "1_000", "+7", "inf", "", "a*b", "lambda x: x", "0j"]
+ANNOUNCE = ["Defaults to {}", "Defaults to {}", "defaults to {}", "Default value is {}", "Default: {}", "Defaults to {}.", "Defaults to {}. More text here", "default is {}",
             "Defaults to\n{}", "defaults to {}, and then some"]
 HEADERS = ["", "Summary line.", "Summary line.\n\nLonger description here.", "One\nTwo\nThree", "Does a thing: the thing.", "   "]
 EXTRA = {
@@ -45,9 +50,10 @@ EXTRA = {
 
 
 def gen_desc(r):
-    d = r.choice(DOCS)
+    d = r.choice(DOCS_TRIGGER) if r.random() < 0.1 else r.choice(DOCS)
     if r.random() < 0.4:
-        d += (" " if d[-1] in ".," else ". ") + r.choice(ANNOUNCE).format(r.choice(DEFAULTS))
+        ann = "(defaults to {})" if r.random() < 0.03 else r.choice(ANNOUNCE)
+        d += (" " if d[-1] in ".," else ". ") + ann.format(r.choice(DEFAULTS_EXOTIC) if r.random() < 0.12 else r.choice(DEFAULTS))
     return d
 
 
@@ -73,10 +79,11 @@ def gen_entries(r):
     return ents
 
 
-def gen_return(r):
+def gen_return(r, style):
     if r.random() < 0.4:
         return None
-    return {"typ": r.choice([t for t in TYPES if t is not None] + [None, None, None]), "doc": gen_desc(r) if r.random() < 0.9 else "",
+    # a NumPy return entry always has a type line; in Google style it may be missing
+    return {"typ": r.choice([t for t in TYPES if t is not None] + ([None] * 6 if style == "google" else [])), "doc": gen_desc(r) if r.random() < 0.9 else "",
             "more": r.sample(["computed on the validation split", "and averaged over the folds", "", "unless told otherwise."], r.randint(1, 3)) if r.random() < 0.3 else []}
 
 
@@ -114,8 +121,7 @@ def render_numpy(r, ents, ret, cont=4):
     sec_ret = []
     if ret is not None:
         sec_ret += ["Returns", "-------"]
-        if ret["typ"] is not None:
-            sec_ret.append(ret["typ"] or "object")
+        sec_ret.append(ret["typ"] or "object")
         if ret["doc"]:
             sec_ret.append(" " * cont + ret["doc"])
         sec_ret += [(" " * cont + m) if m else "" for m in ret["more"]]
@@ -124,7 +130,7 @@ def render_numpy(r, ents, ret, cont=4):
 
 def gen_structured(r):
     style = r.choice(GN)
-    ents, ret = gen_entries(r), gen_return(r)
+    ents, ret = gen_entries(r), gen_return(r, style)
     if style == "google":
         a, b = render_google(r, ents, ret, ind=r.choice([2, 2, 4, 1]), cont=r.choice([2, 4]))
     else:
@@ -157,7 +163,7 @@ TOKENS = [":", ":", "(", ")", "{", "}", " or ", "*", "**", "Args:", "Returns:", 
 
 def perturb(r, d):
     lines = d.split("\n")
-    k = r.randint(0, 13)
+    k = r.randint(0, 15)
     if not lines:
         return d
     i = r.randrange(len(lines))
@@ -204,6 +210,19 @@ def perturb(r, d):
             lines = ["  " + l if l else l for l in lines]
     elif k == 11:  # delete a line
         del lines[i]
+    elif k == 12:  # a type in prose instead of a Python expression
+        s = "\n".join(lines)
+        for t in r.sample(TYPES, len(TYPES)):
+            if t and ("(%s)" % t in s or " : %s\n" % t in s or "\n%s\n" % t in s):
+                return s.replace(t, r.choice(TYPES_PROSE), 1)
+    elif k == 13:  # a NumPy return entry without its type line / a description that triggers the prose type inference
+        s = "\n".join(lines)
+        if "-------\n" in s and r.random() < 0.5:
+            a, b = s.split("-------\n", 1)
+            return a + "-------\n" + b.split("\n", 1)[-1]
+        for dd in r.sample(DOCS, len(DOCS)):
+            if dd in s:
+                return s.replace(dd, r.choice(DOCS_TRIGGER), 1)
     else:  # insert a token at a random character position
         s = "\n".join(lines)
         p = r.randint(0, len(s))
@@ -292,12 +311,6 @@ def impl_gn(case):
     except Exception as e:  # noqa
         out["raises"] = type(e).__name__
     return out
-
-
-def model_requests(case):
-    text, edd, forced = case
-    reqs = [{"op": "c14gn.style", "text": text}]
-    return reqs
 
 
 # ---------------------------------------------------------------------------------------------------------------
